@@ -105,6 +105,8 @@ impl ThreadPool {
     /// Stops the thread pool.
     pub fn stop(&mut self) {
         self.recovery_thread = None;
+        #[cfg(feature = "verif")]
+        crate::verif::point("pool.stop.after_detach");
         self.tx.send(Message::Shutdown).unwrap();
         self.monitor = None;
         self.started = false;
@@ -127,6 +129,8 @@ impl ThreadPool {
 
         let boxed_task = Box::new(task);
         let time_into_pool = Instant::now();
+        #[cfg(feature = "verif")]
+        crate::verif::point("pool.execute.before_send");
         self.tx
             .send(Message::Function(boxed_task, time_into_pool))
             .unwrap();
@@ -152,6 +156,8 @@ impl Thread {
                 let panic_marker = PanicMarker(id, panic_tx);
 
                 loop {
+                    #[cfg(feature = "verif")]
+                    crate::verif::point("pool.worker.before_lock");
                     // When the tx pair has been dropped (shutdown initiated), we want to break out.
                     let task = match rx.lock() {
                         Ok(res) => match res.recv() {
@@ -161,6 +167,8 @@ impl Thread {
                         Err(_) => break,
                     };
 
+                    #[cfg(feature = "verif")]
+                    crate::verif::point("pool.worker.after_recv");
                     match task {
                         Message::Function(f, t) => {
                             if let Some(monitor) = &monitor {
@@ -177,6 +185,8 @@ impl Thread {
                     }
                 }
 
+                #[cfg(feature = "verif")]
+                crate::verif::point("pool.worker.before_exit");
                 drop(panic_marker);
             })
             .expect("Thread could not be spawned");
@@ -190,12 +200,16 @@ impl Thread {
 
 impl Drop for ThreadPool {
     fn drop(&mut self) {
+        #[cfg(feature = "verif")]
+        crate::verif::point("pool.drop.entry");
         if let Some(mut recovery_thread) = self.recovery_thread.take() {
             if let Some(thread) = recovery_thread.0.take() {
                 thread.join().unwrap();
             }
         }
 
+        #[cfg(feature = "verif")]
+        crate::verif::point("pool.drop.before_lock_threads");
         for thread in &mut *self.threads.lock().unwrap() {
             if let Some(thread) = thread.os_thread.take() {
                 drop(thread)
